@@ -115,7 +115,8 @@ def h_thumbprint(ctx):
 
 
 # ------------------------------------------------------------------ E2: kid histories
-FIXTURES = ["ec-pem-nokid", "ec-dict-explicit-kid", "oct-bytes-nokid", "rsa-dict-param-kid", "okp-native-nokid", "ec-lz-pem-nokid", "ec-dict-empty-kid", "oct-param-empty-kid"]
+FIXTURES = ["ec-pem-nokid", "ec-dict-explicit-kid", "oct-bytes-nokid", "rsa-dict-param-kid", "okp-native-nokid", "ec-lz-pem-nokid", "ec-dict-empty-kid", "oct-param-empty-kid",
+            "rsa-d-only-dict-kid", "ec-application-subclass-requiring-use"]
 
 
 class KidModel:
@@ -158,6 +159,24 @@ class KidModel:
         elif f == "oct-bytes-nokid":
             jwk = A.oct_jwk(32)
             st["key"] = A.jkey(jwk, "bytes", params=params)
+            st["explicit"] = None
+        elif f == "rsa-d-only-dict-kid":
+            # RFC 7518 6.3.2: d alone is a complete private RSA JWK; the kid travels inside the JWK
+            from joserfc.jwk import RSAKey
+            jwk = A.rsa_jwk("rsa_1024_a")
+            st["key"] = RSAKey.import_key({**{k_: v_ for k_, v_ in jwk.items() if k_ in ("kty", "n", "e", "d")}, "kid": "2011-04-29"})
+            st["params"] = None
+            st["explicit"] = "2011-04-29"
+        elif f == "ec-application-subclass-requiring-use":
+            # an application key class that insists on a declared use (its own parameter registry): thumbprints stay RFC 7638
+            from joserfc.jwk import ECKey
+            from joserfc.registry import KeyParameter
+
+            class StrictECKey(ECKey):
+                param_registry = {**ECKey.param_registry, "use": KeyParameter("Public Key Use", "str", required=True)}
+            jwk = A.ec_full("P-256", 6)
+            st["key"] = StrictECKey.import_key({**jwk, "use": "sig"})
+            st["params"] = None
             st["explicit"] = None
         elif f == "rsa-dict-param-kid":
             jwk = A.rsa_jwk("rsa_2048_a")
